@@ -199,8 +199,9 @@ def extra_stage(rep, broken, exe, tier):
             continue
         rng = random.Random(C.seed() * 1000003 + 606 + (17 if tier == 'thorough' else 0))
         ops = [gen_run(rng, solver).line() for _ in range(n)]
-        ops, dropped = LP.drop_non_functional(hexe, ops)
+        ops, dropped, hung = LP.prescreen(hexe, ops)
         bump('runs_dropped_nan_injection_not_replayable', dropped)
+        LP.report_hung(rep, hung, solver)
         hout, rc, err = C.run_lines(hexe, ops)
         if rc != 0 or len(hout) != len(ops):
             rep.violation(f'{solver}: real solver crashed / aborted on op #{len(hout)} (rc={rc})',
